@@ -267,8 +267,8 @@ def hasOverlap (a b : Location) (matchStrand fullSpanFlag : Bool) : R Bool :=
   | .single ba sa, .single bb sb =>
       if matchStrand ∧ sa ≠ sb then pure false else pure (overlapKernel ba bb)
   | .single _ _, .empty =>
-      -- `self.strand != other.strand` evaluates EmptyLocation.strand only when match_strand
-      if matchStrand then throw .EmptyLocation else pure false
+      -- `if other.is_empty: return False` (repair d8ea142) comes before the strand test
+      pure false
   | .single ba sa, .compound lb =>
       if matchStrand ∧ sa ≠ lb.strand then pure false
       else if fullSpanFlag then do
@@ -279,12 +279,12 @@ def hasOverlap (a b : Location) (matchStrand fullSpanFlag : Bool) : R Bool :=
         -- any(block.has_overlap(self)) ; strands equal or ignored already
         pure (lb.blocks.any (fun bb => overlapKernel bb ba))
   | .compound la, .empty =>
+      -- every path ends in SingleInterval.has_overlap(EmptyLocation) = False (repair d8ea142);
+      -- the full-span form still constructs the span first
       if fullSpanFlag then do
         let _ ← fullSpan la
-        if matchStrand then throw .EmptyLocation else pure false
-      else
-        -- any() over blocks; each block.has_overlap(Empty, ms) raises iff match_strand
-        if matchStrand then throw .EmptyLocation else pure false
+        pure false
+      else pure false
   | .compound la, .single bb sb =>
       if fullSpanFlag then do
         let fa ← fullSpan la
